@@ -212,6 +212,23 @@ def t_traceback(rng):
                          "emit(debug.traceback('msg', 1))\n" % (d, d))
 
 
+def t_xpcall_threads(rng):
+    """xpcall message handlers versus errors raised on other threads, before and after nested protected calls have
+    pushed and popped contexts (pcall / xpcall / a protected call inside a coroutine)"""
+    nest = rng.choice(["pcall(function() end)", "pcall(error, 'inner')", "xpcall(function() return 1 end, function(m) return 'I' .. m end)",
+                       "coroutine.wrap(function() pcall(function() end) end)()", "for i = 1, 3 do pcall(function() return i end) end"])
+    lvl = rng.choice([0, 1, 2])
+    return "xpcall-threads", ("local calls = 0\nlocal function handler(m) calls = calls + 1 return 'H(' .. tostring(m) .. ')' end\n"
+                              "local function body(nested, same)\n  if nested then %s end\n"
+                              "  local co = coroutine.create(function() local a = 1 error('boom', %d) end)\n  local ok, e = coroutine.resume(co)\n"
+                              "  local w = coroutine.wrap(function() error({code = 7}) end)\n  local ok2, e2 = pcall(w)\n"
+                              "  if same then error('same thread', %d) end\n  return ok, e, ok2, type(e2) == 'table' and e2.code or e2\nend\n"
+                              "for _, nested in ipairs{false, true} do for _, same in ipairs{false, true} do\n"
+                              "  emit(nested, same, xpcall(body, handler, nested, same)) emit(calls)\nend end\n"
+                              "local co = coroutine.create(function() return xpcall(body, handler, true, true) end)\nemit(coroutine.resume(co)) emit(calls)\n"
+                              % (nest, lvl, lvl))
+
+
 def t_hooks(rng):
     """debug hooks written in Lua (call / return / line / count events) that inspect the frames below them with
     debug.getinfo at levels 1..3 and debug.traceback, around ordinary returns, tail calls, error unwinding and coroutine
@@ -309,7 +326,7 @@ def t_tbc_errors(rng):
                           "  emit(pcall(lost, i)) emit(busy(%d)) emit(pcall(lost2, i)) emit(xpcall(lost, debug.traceback, i)) emit(busy(7))\nend\n" % (n, b, b))
 
 
-TEMPLATES = [t_hooks, t_tbc_errors, t_traceback, t_close, t_reentrant, t_deep, t_tail, t_unwind, t_coro, t_closures, t_live, t_regsizes, t_varargs, t_gocalls]
+TEMPLATES = [t_xpcall_threads, t_hooks, t_tbc_errors, t_traceback, t_close, t_reentrant, t_deep, t_tail, t_unwind, t_coro, t_closures, t_live, t_regsizes, t_varargs, t_gocalls]
 
 
 def rand_program(rng):
@@ -521,6 +538,14 @@ def run(tier, seed):
         futs = {name: ex.submit(run_config, b) for name, b in bins.items()}
         for name, fu in futs.items():
             outs[name] = fu.result()
+    # compare what the property is about: status, event trace, results, error, stdout, context status — not the
+    # measurements the shared runner appends (A: heap bytes, W: wall-clock microseconds, ...)
+    def canon(l):
+        f = l.split(" ")
+        if len(f) > 2 and f[1] in ("ok", "error", "compile_error", "killed", "gopanic"):
+            return " ".join(f[:2] + [t for t in f[2:] if t[:2] in ("T:", "R:", "E:", "O:", "X:")])
+        return l
+    outs = {name: [canon(l) for l in ls] for name, ls in outs.items()}
     ck.log("%d programs run on %d configurations" % (len(programs), len(bins)))
     base = outs["default"]
     cross_fail = 0
